@@ -75,6 +75,11 @@ let check_result = function
 let valid_result = function Panic _ -> "panic" | Ret true -> "1" | Ret false -> "0"
 let string_result = function Panic _ -> "panic" | Ret s -> "ok " ^ hex_of_bytes s
 let b01 b = if b then "1" else "0"
+(* the domain flag of a string: "1" = valid UTF-8 whose NFKD form has no run of more than 30 modifiers (the library
+   contract claims UAX #15 NFKD there), "0" = valid UTF-8 outside that domain, "u" = not valid UTF-8 (the contract
+   claims only that the library's output is not valid UTF-8 either) *)
+let dom1 b = if not (utf8_valid b) then "u" else b01 (xsafe b)
+let dom2 m p = if not (utf8_valid m && utf8_valid p) then "u" else b01 (xsafe m && xsafe p)
 
 let lang_name z = (* first declared constant with this value *)
   let rec go = function [] -> None | (nm, v) :: r -> if v = z then Some nm else go r in
@@ -104,7 +109,7 @@ let op_of_fields f = match f with
 let seed_args m p =
   let pw = nfkd m and salt = nfkd (app seed_prefix p) in
   Printf.sprintf "args %s %s %d %d xs=%s" (hex_of_bytes pw) (hex_of_bytes salt)
-    (int_of_n seed_iter) (int_of_n seed_keylen) (b01 (xsafe m && xsafe p))
+    (int_of_n seed_iter) (int_of_n seed_keylen) (dom2 m p)
 
 let result_str full o r = match o, r with
   | _, REntropy x -> str_err_result x
@@ -139,7 +144,7 @@ let model_line line =
   | ["M"; k; m] -> hex_of_bytes (hmac_sha512 (bytes_of_hex k) (bytes_of_hex m))
   | ["P"; pw; salt; c; len] ->
     hex_of_bytes (pbkdf2_hmac_sha512 (bytes_of_hex pw) (bytes_of_hex salt) (n_of_int (int_of_string c)) (nat_of_int (int_of_string len)))
-  | ["K"; s] -> let b = bytes_of_hex s in Printf.sprintf "%s xs=%s" (hex_of_bytes (nfkd b)) (b01 (xsafe b))
+  | ["K"; s] -> let b = bytes_of_hex s in Printf.sprintf "%s xs=%s" (hex_of_bytes (nfkd b)) (dom1 b)
   | ["R"; need; sc] ->
     let s = script_of_string sc in
     let ((buf, e), rest) = read_full (nat_of_int (int_of_string need)) s in
@@ -183,10 +188,10 @@ let spec_line line =
        (* class: the specification's classifier on the 0x20-separated tokens of the NFKD form;
           accept: the specification's acceptance on the Unicode-whitespace tokens of the NFKD form *)
        let v = classify sha (tbl_get (canon nm)) (split_at (fun c -> c = x20) (nfkd b)) in
-       Printf.sprintf "%s class=%s xs=%s" (if spec_accepts sha nm b then "accept" else "reject") (verdict_str v) (b01 (xsafe b)))
+       Printf.sprintf "%s class=%s xs=%s" (if spec_accepts sha nm b then "accept" else "reject") (verdict_str v) (dom1 b))
   | ["S"; m; p] ->
     let m = bytes_of_hex m and p = bytes_of_hex p in
-    Printf.sprintf "args %s %s 2048 64 xs=%s" (hex_of_bytes (nfkd m)) (hex_of_bytes (app mnemonic_salt (nfkd p))) (b01 (xsafe m && xsafe p))
+    Printf.sprintf "args %s %s 2048 64 xs=%s" (hex_of_bytes (nfkd m)) (hex_of_bytes (app mnemonic_salt (nfkd p))) (dom2 m p)
   | ["SF"; m; p] -> "seed " ^ hex_of_bytes (bip39_seed (bytes_of_hex m) (bytes_of_hex p))
   | ["L"; i] ->
     if not (is_num i) then "ok " ^ hex_of_bytes (bytes_of_ocaml i) else begin
@@ -201,7 +206,7 @@ let spec_line line =
      | Some nm -> (match bip39_decode nm (bytes_of_hex s) with None -> "none" | Some e -> "ent " ^ hex_of_bytes e))
   | ["T"; lang; s] -> (* whitespace tokens of the NFKD form *)
     ignore lang; String.concat "," (List.map hex_of_bytes (ws_tokens (nfkd (bytes_of_hex s))))
-  | ["K"; s] -> let b = bytes_of_hex s in Printf.sprintf "%s xs=%s" (hex_of_bytes (nfkd b)) (b01 (xsafe b))
+  | ["K"; s] -> let b = bytes_of_hex s in Printf.sprintf "%s xs=%s" (hex_of_bytes (nfkd b)) (dom1 b)
   | _ -> "unsupported-in-spec-mode"
 
 exception Case_timeout
